@@ -765,6 +765,71 @@ func loopRun(rep *Report, full bool) (transcript []string, err error) {
 			return nil
 		}})
 	}
+	if lw.AuthOK {
+		// A transaction is atomic: an authority message that SUCCEEDED inside a transaction whose later message fails never
+		// happened. Whatever a keeper remembers outside the stores (a cached limit, a "paused" flag, a counter) survives the
+		// rollback — on this instance only (seeds C09g/h, C08h, C18h, C19h, C12h, C13h). Committed state at this point:
+		// limit 0, nothing paused. Each rolled-back message is followed by a packet whose verdict that message would change.
+		phases = append(phases, phase{"authority messages inside transactions that are rolled back", func() error {
+			orb := lw.Orb.String()
+			fee := lw.feeMenu()[1]
+			pt := func(n int) string {
+				return Memo(Fwd{Kind: "cctp", Domain: 0, MintRecipient: b32(9), Passthrough: bytes.Repeat([]byte{7}, n)}, nil)
+			}
+			failing := mk(lw.OpUnpauseAction("ACTION_FEE")) // redundant: the fee action is not paused -> this message fails
+			for _, st := range []struct {
+				label string
+				op    Op
+				step  LoopStep
+				ok    bool
+			}{
+				{"tx[UpdateParams(64) ; failing] then passthrough 5B", lw.OpUpdateParams(64), LoopStep{Base: denomUSDC, Amount: "100", Receiver: orb, Memo: pt(5)}, false},
+				{"tx[PauseProtocol(INTERNAL) ; failing] then internal", lw.OpPauseProtocol("PROTOCOL_INTERNAL"), LoopStep{Base: denomUSDC, Amount: "700", Receiver: orb, Memo: Memo(lw.FwdInternal(lw.Bob), nil)}, true},
+				{"tx[PauseCC(HYP,2) ; failing] then hyp(2)", lw.OpPauseCC("PROTOCOL_HYPERLANE", "2"), LoopStep{Base: denomUSDC, Amount: "700", Receiver: orb, Memo: Memo(lw.FwdHyp(2), nil)}, true},
+				{"tx[PauseCC(CCTP,0) ; failing] then cctp(0)", lw.OpPauseCC("PROTOCOL_CCTP", "0"), LoopStep{Base: denomUSDC, Amount: "700", Receiver: orb, Memo: Memo(lw.FwdCCTP(0), nil)}, true},
+				{"tx[PauseAction(FEE) ; failing] then transfer with fee", lw.OpPauseAction("ACTION_FEE"), LoopStep{Base: denomUSDC, Amount: "5000", Receiver: orb, Memo: Memo(lw.FwdInternal(lw.Bob), fee)}, true},
+			} {
+				fm := failing
+				if st.op.Msg != nil && st.op.Msg.RPC == "PauseAction" {
+					fm = mk(lw.OpUnpauseProtocol("PROTOCOL_CCTP")) // after a (rolled-back) PauseAction(FEE) the unpause of FEE would succeed: fail on something else
+				}
+				if err := admin(st.label, auth, &no, mk(st.op), fm); err != nil {
+					return err
+				}
+				o, err := lw.RunStep(st.step)
+				if err != nil {
+					return err
+				}
+				count("loop_rolled_back_steps")
+				count("evaluations")
+				lw.Transcript = append(lw.Transcript, fmt.Sprintf("  rolled back: %s ack=%s", st.label, trunc(string(o.Ack), 60)))
+				switch {
+				case !o.Sendable || o.RecvCode != 0:
+					violate("real-transaction-outcome", "rolled back: "+st.label, fmt.Sprintf("probe packet could not be delivered: sendable=%v code %d %s", o.Sendable, o.RecvCode, o.RecvLog))
+				case o.AckSuccess != st.ok:
+					violate("rolled-back-message-in-force", "rolled back: "+st.label, fmt.Sprintf("an authority message that succeeded inside a transaction whose next message failed is in force afterwards: the packet was %s, on the committed state it must be %s (ack %s)",
+						map[bool]string{true: "executed", false: "refused"}[o.AckSuccess], map[bool]string{true: "executed", false: "refused"}[st.ok], trunc(string(o.Ack), 200)))
+				default:
+					if rep != nil {
+						rep.Outcome("rolled-back-message-not-in-force")
+					}
+				}
+				for _, m := range o.Mismatch {
+					violate("emulated-envelope-disagrees-with-real", "rolled back: "+st.label, m)
+				}
+				if o.AckSuccess && o.RecvCode == 0 {
+					if v, ok := parseIntLikeSDK(st.step.Amount); ok {
+						if foldIn[st.step.Base] == nil {
+							foldIn[st.step.Base] = new(big.Int)
+						}
+						foldIn[st.step.Base].Add(foldIn[st.step.Base], v)
+						foldN++
+					}
+				}
+			}
+			return nil
+		}})
+	}
 	phases = append(phases, phase{"token factory paused", func() error { return lw.ApplyEnv(lw.Ctx, "ftf-pause") }})
 	menu := lw.loopMenu(full)
 	for pi, ph := range phases {
